@@ -460,6 +460,11 @@ def gen_C04(rng, tier):
             pairs.append((a, b2))
     P = rng.choice([e for e in be if e[0] == 'decoded'])
     pairs += [(P, P), (P, (P[0] + '-neg', P[1] + ['E=neg:E'], 'E')), (P, ('other-coset', P[1] + ['a=mul:E,%s' % h32(r - 1), 'E=neg:a'], 'E'))]
+    # the same group element on both sides, held in different representations (re-decoded = the canonical coset member with
+    # Z = 1; (-1)*(-Q) = a recomputed one): where dedicated / mixed addition formulas degenerate (seed C04_r8)
+    for E in (be if tier != 'quick' else rng.sample(be, min(len(be), 6))):
+        pairs.append((E, (E[0] + '-redec', E[1] + ['E=redec:E'], 'E')))
+        pairs.append(((E[0] + '-redec', E[1] + ['E=redec:E'], 'E'), (E[0] + '-recomputed', E[1] + ['a=mul:E,%s' % h32(r - 1), 'E=neg:a'], 'E')))
     for A, B in pairs:
         st = pg.two(A, B)
         for bld in ('ark', 'min'):
@@ -606,6 +611,20 @@ def gen_C06(rng, tier):
                 return None
             return None if out.startswith('valid ') else 'from_random_bytes handed out a point outside the group'
         cases.append(Case(prog(['E=frb:%s' % hexb(bs), 'valid:E', 'enc:E']), builds=('ark',), cls='from_random_bytes:len%d' % len(bs), oracle=orc, sig='from_random_bytes'))
+    # hash-to-group as a constructor, both builds, incl. dependent inputs (equal / negated / zero: where a dedicated addition
+    # degenerates to (0:0:0:0), which compares equal to everything — so validity also demands that equality with the
+    # generator agrees with equality of encodings; seed C07_r8)
+    hv = special_fq(rng, 4 if tier == 'quick' else 40)
+    hp = []
+    for a in hv:
+        hp += [(a, rng.choice(hv)), (a, a), (a, (q - a) % q), (a, 0)]
+    for a, b2 in hp:
+        def orc(out, bld):
+            f = out.split(' ')
+            ok = len(f) == 5 and f[0] == '1' and f[1] == '1' and ((f[2] == '1') == (f[3] == f[4]))
+            return None if ok else 'hash-to-group handed out an invalid element'
+        cases.append(Case(prog(['E=h2c:%s,%s' % (h32(a), h32(b2)), 'f=redec:E', 'eq:E,f', 'n=mul:E,%s' % h32(r - 1), 'm=add:n,E', 'isid:m', 'g=gen', 'eq:E,g', 'enc:E', 'enc:g']),
+                          cls='hash-to-group:' + ('equal' if a == b2 else 'negated' if (a + b2) % q == 0 else 'zero' if b2 == 0 else 'independent'), oracle=orc))
     # conversions preserve validity
     encs = valid_encodings(rng, 8)
     pg = ProgGen(rng, encs)
@@ -679,10 +698,16 @@ def gen_C07(rng, tier):
                           spec='spec.ell3 %s' % h32(r0)))
         vals.append(r0)
     cases += sqrt_premise_cases(rng, tier)
-    for _ in range(10 if tier == 'quick' else 200):
-        a, b = rng.choice(vals), rng.choice(vals)
-        cases.append(Case(prog(['h=h2c:%s,%s' % (h32(a), h32(b)), 'X=ell:%s' % h32(a), 'Y=ell:%s' % h32(b), 's=add:X,Y', 'eq:h,s', 'enc:h', 'enc:s']), cls='hash_to_curve',
-                          oracle=expect_fields(lambda f: f[0] == '1' and f[1] == f[2], 'hash_to_curve != elligator + elligator')))
+    h2c_pairs = [('independent', rng.choice(vals), rng.choice(vals)) for _ in range(10 if tier == 'quick' else 200)]
+    # dependent inputs: the two one-input images are the same element (r2 = ±r1) or inverse to each other is impossible, but
+    # equal images are where a dedicated (non-unified) addition degenerates (seed C07_r8); also one image the identity (r = 0)
+    for a in rng.sample(vals, min(len(vals), 6 if tier == 'quick' else 60)) + [0, 1]:
+        h2c_pairs += [('equal', a, a), ('negated', a, (q - a) % q), ('with-zero', a, 0), ('zero-with', 0, a)]
+    for cls, a, b in h2c_pairs:
+        cases.append(Case(prog(['h=h2c:%s,%s' % (h32(a), h32(b)), 'X=ell:%s' % h32(a), 'Y=ell:%s' % h32(b), 's=add:X,Y', 'eq:h,s', 'enc:h', 'enc:s', 'd=dbl:X', 'enc:d']),
+                          cls='hash_to_curve:' + cls,
+                          oracle=expect_fields(lambda f, cls=cls: f[0] == '1' and f[1] == f[2] and (cls not in ('equal', 'negated') or f[1] == f[3]),
+                                               'hash_to_curve != elligator + elligator')))
     return cases
 
 
@@ -982,6 +1007,9 @@ def gen_C12(rng, tier):
             cases.append(Case(prog(['r1=dec.%s:%s' % (form, b), 'enc:r1', 'isid:r1']), cls='decode'))
     for r0 in special_fq(rng, 10 if tier == 'quick' else 200):
         cases.append(Case(prog(['E=ell:%s' % h32(r0), 'enc:E', 'isid:E', 'h=h2c:%s,%s' % (h32(r0), h32(rng.randrange(q))), 'enc:h']), cls='elligator'))
+        # dependent inputs of the two-input hash (equal / negated / zero): where the two backends' additions could differ
+        cases.append(Case(prog(['h=h2c:%s,%s' % (h32(r0), h32(r0)), 'enc:h', 'isid:h', 'g=h2c:%s,%s' % (h32(r0), h32((q - r0) % q)), 'enc:g',
+                                'k=h2c:%s,%s' % (h32(r0), h32(0)), 'enc:k']), cls='hash-dependent-inputs'))
     # every observable both builds offer, on every kind of representative (incl. both forms of the identity, Z = 1
     # non-canonical coset members, results of arithmetic)
     pgb = ProgGen(rng, encs)
@@ -1569,8 +1597,8 @@ FORMULAS = {
     'C01': ['ark_compress', 'ark_decompress', 'min_compress', 'min_decompress'],
     'C02': ['ark_decompress', 'min_decompress'],
     'C03': ['ark_compress', 'min_compress', 'ark_eq', 'min_eq', 'ark_affine_eq'],
-    'C04': ['min_add', 'min_double', 'min_neg'],
-    'C05': ['min_add', 'min_double'],
+    'C04': ['min_add', 'min_double', 'min_neg', 'opforms'],
+    'C05': ['min_add', 'min_double', 'opforms'],
     'C06': ['ark_decompress', 'min_decompress', 'ark_elligator', 'min_elligator'],
     'C07': ['ark_elligator', 'min_elligator', 'min_add'],
     'C08': ['ark_eq', 'min_eq', 'ark_affine_eq', 'ark_is_identity', 'min_is_identity'],
